@@ -7072,6 +7072,137 @@ let dumpload_case = function
                    (flat_map ent2z (pgets (Z.to_nat n0) q))))
       | None -> rej :: (Z0 :: [])))
 
+(** val table_ids : w -> nat -> nat list **)
+
+let table_ids s tid =
+  match nth_error s.w_tables tid with
+  | Some t -> map fst (firstn t.t_len t.t_ents)
+  | None -> []
+
+(** val alive_ids : w -> nat list **)
+
+let alive_ids s =
+  flat_map (fun a -> flat_map (table_ids s) a.a_tables) s.w_archs
+
+(** val w_dump_entities : w -> edump * nat list **)
+
+let w_dump_entities s =
+  ((pool_dump s.w_pool), (alive_ids s))
+
+(** val load_rows :
+    ent list -> nat list -> table -> (nat option * nat) list -> (table * (nat
+    option * nat) list) option **)
+
+let rec load_rows pes alive0 t idx =
+  match alive0 with
+  | [] -> Some (t, idx)
+  | i :: rest ->
+    (match nth_error pes i with
+     | Some e ->
+       if Nat.ltb (fst e) (length idx)
+       then let (row, t') = tbl_add t e in
+            load_rows pes rest t' (upd (fst e) ((Some O), row) idx)
+       else None
+     | None -> None)
+
+(** val w_load_entities : (edump * nat list) -> w -> w option **)
+
+let w_load_entities d s =
+  let (pd, alive0) = d in
+  if is_locked s
+  then None
+  else (match pool_load s.w_pool pd with
+        | Some p0 ->
+          let cap = length pd.d_ents in
+          (match nth_error s.w_tables O with
+           | Some t0 ->
+             (match load_rows p0.pe alive0 (tbl_extend t0 (length alive0))
+                      (repeat ((Some O), O) cap) with
+              | Some p1 ->
+                let (t1, idx) = p1 in
+                Some
+                (set (fun w0 -> w0.w_tables) (fun f ->
+                  let l = fun r -> f r.w_tables in
+                  (fun x -> { w_cfg = x.w_cfg; w_reg = x.w_reg; w_pool =
+                  x.w_pool; w_index = x.w_index; w_istarget = x.w_istarget;
+                  w_archs = x.w_archs; w_tables = (l x); w_relarchs =
+                  x.w_relarchs; w_compindex = x.w_compindex; w_archcount =
+                  x.w_archcount; w_version = x.w_version; w_cheap =
+                  x.w_cheap; w_centries = x.w_centries; w_cpool = x.w_cpool;
+                  w_lock = x.w_lock; w_obs = x.w_obs; w_olists = x.w_olists;
+                  w_oagg = x.w_oagg; w_opool = x.w_opool; w_ototal =
+                  x.w_ototal; w_omax = x.w_omax; w_filters = x.w_filters;
+                  w_queries = x.w_queries; w_res = x.w_res; w_issued =
+                  x.w_issued; w_log = x.w_log })) (upd O t1)
+                  (set (fun w0 -> w0.w_istarget) (fun f ->
+                    let l = fun r -> f r.w_istarget in
+                    (fun x -> { w_cfg = x.w_cfg; w_reg = x.w_reg; w_pool =
+                    x.w_pool; w_index = x.w_index; w_istarget = (l x);
+                    w_archs = x.w_archs; w_tables = x.w_tables; w_relarchs =
+                    x.w_relarchs; w_compindex = x.w_compindex; w_archcount =
+                    x.w_archcount; w_version = x.w_version; w_cheap =
+                    x.w_cheap; w_centries = x.w_centries; w_cpool =
+                    x.w_cpool; w_lock = x.w_lock; w_obs = x.w_obs; w_olists =
+                    x.w_olists; w_oagg = x.w_oagg; w_opool = x.w_opool;
+                    w_ototal = x.w_ototal; w_omax = x.w_omax; w_filters =
+                    x.w_filters; w_queries = x.w_queries; w_res = x.w_res;
+                    w_issued = x.w_issued; w_log = x.w_log })) (fun _ ->
+                    repeat false cap)
+                    (set (fun w0 -> w0.w_index) (fun f ->
+                      let l = fun r -> f r.w_index in
+                      (fun x -> { w_cfg = x.w_cfg; w_reg = x.w_reg; w_pool =
+                      x.w_pool; w_index = (l x); w_istarget = x.w_istarget;
+                      w_archs = x.w_archs; w_tables = x.w_tables;
+                      w_relarchs = x.w_relarchs; w_compindex = x.w_compindex;
+                      w_archcount = x.w_archcount; w_version = x.w_version;
+                      w_cheap = x.w_cheap; w_centries = x.w_centries;
+                      w_cpool = x.w_cpool; w_lock = x.w_lock; w_obs =
+                      x.w_obs; w_olists = x.w_olists; w_oagg = x.w_oagg;
+                      w_opool = x.w_opool; w_ototal = x.w_ototal; w_omax =
+                      x.w_omax; w_filters = x.w_filters; w_queries =
+                      x.w_queries; w_res = x.w_res; w_issued = x.w_issued;
+                      w_log = x.w_log })) (fun _ -> idx)
+                      (set (fun w0 -> w0.w_pool) (fun f ->
+                        let p2 = fun r -> f r.w_pool in
+                        (fun x -> { w_cfg = x.w_cfg; w_reg = x.w_reg;
+                        w_pool = (p2 x); w_index = x.w_index; w_istarget =
+                        x.w_istarget; w_archs = x.w_archs; w_tables =
+                        x.w_tables; w_relarchs = x.w_relarchs; w_compindex =
+                        x.w_compindex; w_archcount = x.w_archcount;
+                        w_version = x.w_version; w_cheap = x.w_cheap;
+                        w_centries = x.w_centries; w_cpool = x.w_cpool;
+                        w_lock = x.w_lock; w_obs = x.w_obs; w_olists =
+                        x.w_olists; w_oagg = x.w_oagg; w_opool = x.w_opool;
+                        w_ototal = x.w_ototal; w_omax = x.w_omax; w_filters =
+                        x.w_filters; w_queries = x.w_queries; w_res =
+                        x.w_res; w_issued = x.w_issued; w_log = x.w_log }))
+                        (fun _ -> p0) s))))
+              | None -> None)
+           | None -> None)
+        | None -> None)
+
+(** val final_state : bool -> w -> z list list -> w **)
+
+let rec final_state debug s = function
+| [] -> s
+| l :: rest -> final_state debug (fst (step debug false s l)) rest
+
+(** val dumpload_world : z list list -> z list **)
+
+let dumpload_world = function
+| [] -> (Zneg (XO XH)) :: []
+| cfg :: l ->
+  (match l with
+   | [] -> (Zneg (XO XH)) :: []
+   | _ :: ops ->
+     (match decode_cfg cfg with
+      | Some c ->
+        let s = final_state c.sc_debug (init_world c) ops in
+        (match w_load_entities (w_dump_entities s) (init_world c) with
+         | Some s' -> dump s'
+         | None -> (Zneg (XI XH)) :: [])
+      | None -> (Zneg (XO XH)) :: []))
+
 (** val row_ent : table -> nat -> ent **)
 
 let row_ent t r =
